@@ -214,6 +214,11 @@ def run(prog: Program, col: Collector, tier: str, refs: Optional[Refs] = None, c
     # ---------------------------------------------------------------- R06.5
     col.rule("R06.5", "dimension parameters are normalised modulo the rank in every branch before use as indices", floor=2)
     _axis_normalisation(prog, col, refs, cat)
+    from . import algebra as _algebra
+    _algebra.r_split_reduced_vars_accounted(prog, col, refs, cat, "R06.15")
+    from . import shapes
+    shapes.r_two_operand_shapes_broadcast(prog, col, refs, cat, "R06.16")
+    shapes.r_ellipsis_fill(prog, col, refs, cat, "R06.17")
     return col
 
 
